@@ -1,20 +1,24 @@
 """C07 — four declaration styles of one nested group: real parsers vs Model/C07Decl.v + Model/C07Parse.v."""
 import json
+import os
+import sys
 
 from tie import framework as fw
 from tie.framework import g_bool, g_list, g_opt, g_pair, g_str, g_Z
 
 PROP = "C07"
-IMPORTS = "From JV Require Import Lib.Base Model.C07Decl Model.C07Parse Corr.C07Judge."
+IMPORTS = "From JV Require Import Lib.Base Model.C07Decl Model.C07Parse Spec.C07Spec Corr.C07Judge."
 RULE = ("seeded field lists (1-5 fields; names with shared prefixes and a leading underscore; types int, str, bool, "
-        "Optional[int|str|List[int]], List[int|str]; defaults conforming / None / absent) under group keys g, grp, my_g, "
-        "my-g, c, h, p; per field list one TABLE case (the four real parsers' _actions and required_args against the "
-        "model compilers) and ~10 RUN cases: one input (parse_args with dotted options, abbreviations, '+' appends, "
-        "whole-group --g=JSON, --cfg=config strings, unknown options; parse_object; parse_string; each with 0-2 "
-        "environment variables incl. APP_<G>, APP_<G>__<F>, APP_CFG; valid and invalid values, unknown keys, scalar / "
-        "string / null for the group key, dotted keys in configs) through the four real parsers. Field lists are never "
-        "empty. non-trivial = table case with >=2 fields or run case with a non-empty input; distinct = distinct "
-        "(declaration, input, observation)")
+        "Optional[int|str|List[int]], List[int|str]; defaults conforming / None / absent; ~30% lists that the signature "
+        "rules rewrite) under group keys g, grp, my_g, my-g, c, h, p; the dataclass / class styles are built from the "
+        "list, the dotted / inner-parser styles from its normal form under the documented signature rules (the judge "
+        "recomputes the normal form in Coq). Per field list one TABLE case (the four real parsers' _actions and "
+        "required_args against the model compilers) and 10 RUN cases: one input (parse_args with dotted options, "
+        "abbreviations, '+' appends, whole-group --g=JSON, --cfg=config strings, unknown options; parse_object; "
+        "parse_string; each with 0-2 environment variables incl. APP_<G>, APP_<G>__<F>, APP_CFG; valid and invalid "
+        "values, unknown keys, scalar / string / null for the group key, dotted keys in configs) through the four real "
+        "parsers. Field lists are never empty. non-trivial = table case with >=2 fields or run case with a non-empty "
+        "input; distinct = distinct (declaration, input, observation)")
 TRUSTED = [
     "Coq 8.16.1 kernel + vm_compute",
     "tie/impl/c07_styles.py (builds the four parsers, reads _actions / required_args, canonicalises results) and the "
@@ -28,6 +32,10 @@ ASSUMPTIONS = [
     "config strings on --cfg / APP_CFG do not name existing files; declared defaults conform to their types or are None",
     "type conversion (other properties' business) is modelled only for int, str, bool, Optional, List and is "
     "idempotent on its own results; floats and other YAML kinds are never generated",
+    "the result namespace has two levels (group key -> field): field names and config keys carry no further dots; "
+    "group keys have no dot and no leading '-' (finding class 6 otherwise: never generated, not listed)",
+    "the add_argument styles are declared from the normal form of the field list under the documented signature rules "
+    "(Optional without default -> default None, default None -> Optional[T], non-required '_' names not offered)",
     "the top-level 'cfg' entry of the result (list of config paths) is the same in all styles and is not compared",
     "exception classes and message texts are not compared (accept / reject / exit / other)",
 ]
@@ -36,9 +44,11 @@ FINDING_CLASSES = {
     1: "dotted-whole-group-argv",
     2: "dotted-whole-group-env",
     3: "dotted-group-key-string-or-null",
-    4: "signature-parameter-rules",
     5: "inner-hyphen-required",
 }
+# "judge" follows the tree (faithful model of the unchanged tree, else the model of the tree repaired by
+# fixes/C07-inner-hyphen-required.patch); "judge_unfixed" / "judge_fixed" pin one model (VERIF_C07_JUDGE for one run).
+JUDGE = os.environ.get("VERIF_C07_JUDGE", "judge")
 STYLES = ["dotted", "dcls", "cls", "inner"]
 
 GKEYS = ["g", "g", "g", "grp", "my_g", "my-g", "c", "h", "p"]
@@ -92,6 +102,21 @@ def explicit(fs):
             if d["v"] is None and not is_opt(t):
                 return False
     return True
+
+
+def py_norm(fs):
+    """the documented signature rules as a normal form of the field list (harness mirror of
+    Model.C07Decl.norm; the judge re-computes it in Coq and rejects the case if the two differ)"""
+    out = []
+    for nm, t, d in fs:
+        if "nd" in d and is_opt(t):
+            d = {"v": None}
+        if "v" in d and nm.startswith("_"):
+            continue
+        if "v" in d and d["v"] is None and not is_opt(t):
+            t = ["opt", t]
+        out.append([nm, t, d])
+    return out
 
 
 def make_explicit(fs):
@@ -152,7 +177,7 @@ def group_dict(rng, fs, complete, p_invalid=0.12, p_unknown=0.08):
         if need or rng.random() < 0.4:
             d[nm] = obj_for(rng, t, rng.random() >= p_invalid)
     if rng.random() < p_unknown:
-        d[rng.choice(["zz", "a.x", "nope"])] = rng.choice([1, "s", None])
+        d[rng.choice(["zz", "a_x", "nope"])] = rng.choice([1, "s", None])
     items = list(d.items())
     rng.shuffle(items)
     return dict(items)
@@ -268,26 +293,33 @@ FIXED = [
 ]
 
 
+def mk_case(t, gk, fs, inp=None):
+    c = {"t": t, "gk": gk, "fields": fs, "nfields": py_norm(fs)}
+    if inp is not None:
+        c["input"] = inp
+    return c
+
+
 def generate(rng, tier):
     cases = []
     for gk, fs, inputs in FIXED:
-        cases.append({"t": "table", "gk": gk, "fields": fs})
+        cases.append(mk_case("table", gk, fs))
         for inp in inputs:
-            cases.append({"t": "run", "gk": gk, "fields": fs, "input": inp})
-    n_lists = 260 if tier == "quick" else 5000
+            cases.append(mk_case("run", gk, fs, inp))
+    n_lists = 260 if tier == "quick" else 4500
     for _ in range(n_lists):
         gk = rng.choice(GKEYS)
         fs = gen_fields(rng)
-        if rng.random() < 0.8:
+        if rng.random() < 0.7:
             fs = make_explicit(fs)
-            if gk == "my-g" and rng.random() < 0.6:
-                fs = [[nm, t, ({"v": dflt_for(rng, t)} if "nd" in d else d)] for nm, t, d in fs]
+        if gk == "my-g" and rng.random() < 0.6:
+            fs = [[nm, t, ({"v": dflt_for(rng, t)} if "nd" in d else d)] for nm, t, d in fs]
         names = [f[0] for f in fs]
-        if len(set(names)) != len(names):
+        if len(set(names)) != len(names) or not py_norm(fs):
             continue
-        cases.append({"t": "table", "gk": gk, "fields": fs})
+        cases.append(mk_case("table", gk, fs))
         for _ in range(10):
-            cases.append({"t": "run", "gk": gk, "fields": fs, "input": gen_input(rng, gk, fs)})
+            cases.append(mk_case("run", gk, fs, gen_input(rng, gk, fs)))
     return cases
 
 
@@ -295,12 +327,13 @@ def generate(rng, tier):
 def observe(cases):
     groups = {}
     for i, c in enumerate(cases):
-        groups.setdefault(json.dumps([c["gk"], c["fields"]]), []).append(i)
+        groups.setdefault(json.dumps([c["gk"], c["fields"], c.get("nfields")]), []).append(i)
     payload_cases, index = [], []
     for key, idxs in groups.items():
         c0 = cases[idxs[0]]
         runs = [i for i in idxs if cases[i]["t"] == "run"]
-        payload_cases.append({"gk": c0["gk"], "fields": c0["fields"], "inputs": [cases[i]["input"] for i in runs]})
+        payload_cases.append({"gk": c0["gk"], "fields": c0["fields"], "nfields": c0.get("nfields", py_norm(c0["fields"])),
+                              "inputs": [cases[i]["input"] for i in runs]})
         index.append((idxs, runs))
     nchunk = min(fw.JOBS, max(1, len(payload_cases)))
     chunks = [payload_cases[k::nchunk] for k in range(nchunk)]
@@ -427,10 +460,11 @@ def safe_val(v):
 
 def term(case, obs):
     fs = g_list([g_field(f) for f in case["fields"]], "field")
+    nfs = g_list([g_field(f) for f in case.get("nfields", py_norm(case["fields"]))], "field")
     if case["t"] == "table":
-        return "CTable %s %s %s" % (g_str(case["gk"]), fs, g_four(g_table, obs["tables"]))
-    return "CRun %s %s %s %s %s %s" % (g_str(case["gk"]), fs, g_input(case["input"]), g_tab(obs["pv"]), g_tab(obs["jl"]),
-                                       g_four(g_run, obs["styles"]))
+        return "CTable %s %s %s %s" % (g_str(case["gk"]), fs, nfs, g_four(g_table, obs["tables"]))
+    return "CRun %s %s %s %s %s %s %s" % (g_str(case["gk"]), fs, nfs, g_input(case["input"]), g_tab(obs["pv"]),
+                                          g_tab(obs["jl"]), g_four(g_run, obs["styles"]))
 
 
 # ---- evidence helpers ------------------------------------------------------------------------------
@@ -456,7 +490,8 @@ def category(case, obs):
 
 
 def describe(case, obs):
-    d = {"group_key": case["gk"], "fields(name,type,default)": case["fields"]}
+    d = {"group_key": case["gk"], "fields(name,type,default)": case["fields"],
+         "fields_as_declared_in_the_dotted_and_inner_parser_styles": case.get("nfields", py_norm(case["fields"]))}
     if case["t"] == "table":
         d["tables_of_the_four_real_parsers"] = obs["tables"]
     else:
@@ -465,12 +500,50 @@ def describe(case, obs):
     return d
 
 
+def addresses_group(case):
+    """harness-side approximation of finding classes 1-3 (the input names the group key itself)"""
+    if case["t"] != "run":
+        return False
+    gk, inp = case["gk"], case["input"]
+    g = gdest(gk)
+    if ("APP_" + g).upper() in inp["env"]:
+        return True
+
+    def in_cfg(d):
+        return isinstance(d, dict) and any(k == g and (v is None or isinstance(v, str)) for k, v in d.items())
+
+    def in_text(t):
+        import yaml
+        try:
+            return in_cfg(yaml.safe_load(t))
+        except Exception:
+            return False
+
+    if any(in_text(t) for k, t in inp["env"].items() if k == "APP_CFG"):
+        return True
+    if inp["kind"] == "args":
+        return any(("--" + gk).startswith(o) or in_text(v) for o, v in inp["args"])
+    if inp["kind"] == "obj":
+        return in_cfg(inp["obj"])
+    return in_text(inp["text"])
+
+
 def shrink(case):
+    # Inside a finding class a failing case is "neither the faithful model nor the spec" (class 99); the framework's
+    # shrink criterion is "the spec fails", which every listed finding satisfies too — shrinking would walk from the
+    # real failure to a listed one.  Such cases are reported unshrunk.
+    if addresses_group(case):
+        return
+
+    def with_fields(fs):
+        return dict(case, fields=fs, nfields=py_norm(fs))
+
     fs = case["fields"]
     if len(fs) > 1:
         for i in range(len(fs)):
-            c = dict(case, fields=fs[:i] + fs[i + 1:])
-            yield c
+            c = with_fields(fs[:i] + fs[i + 1:])
+            if c["nfields"]:
+                yield c
     if case["t"] == "run":
         inp = case["input"]
         for k in list(inp["env"]):
@@ -491,8 +564,53 @@ def shrink(case):
                         yield dict(case, input=dict(inp, obj=dict(o, **{k: sub})))
 
 
+def search(rng, tier, broken):
+    """a broken proof / tie: look for an input on which the four styles really differ (two more quick-sized
+    samples from a fresh seed; the default search would observe the whole thorough tier)"""
+    known = fw.load_known_findings(PROP)
+    for _ in range(2):
+        cases = generate(rng, "quick")
+        obs = observe(cases)
+        bm, bi, bo = fw.judge_cases(sys.modules[__name__], cases, obs, tag="x")
+        bad = sorted(set(bi) | {i for i, k in bo if FINDING_CLASSES.get(k) not in known})
+        if bad:
+            i = bad[0]
+            return {"case": cases[i], "observed": obs[i], "explain": describe(cases[i], obs[i])}
+    return None
+
+
 META = {
-    "level_text": "placeholder",
-    "level_note": "placeholder",
-    "technique": "placeholder",
+    "level_text": (
+        "Theorem C07_four_styles_agree (coq/Properties/C07.v): for EVERY group key, EVERY field list (any length; "
+        "types int/str/bool/Optional/List, default or none), ANY pair of external loaders and EVERY input mix "
+        "(environment variables + parse_args items incl. abbreviations, '+' appends and --cfg strings | parse_object "
+        "| parse_string) that does not address the group key itself, the Gallina models of the four declaration "
+        "styles (dotted add_argument calls, dataclass-typed argument, add_class_arguments under a key, ActionParser "
+        "under a key) give the same accept/reject/exit decision, the same nested values and the same dumped content. "
+        "It rests on table theorems proved for all field lists: C07_grouped_tables_equal (the three grouped styles "
+        "compile to ONE identical action table, so C07_grouped_styles_agree_on_all_inputs holds for all inputs, "
+        "whole-group values included), C07_class_group_table (that table is the dotted table of the normal form "
+        "plus the group's _ActionConfigLoad row), C07_equiv_tables_same_parse (any leaf table and the same table "
+        "with the load row answer every guarded input identically: a simulation through defaults, environment, "
+        "argv, config merge, validation and dump with an invariant), and C07_signature_rules_normal_form / "
+        "C07_norm_idempotent (the signature styles see a field list only through the documented rules' normal form). "
+        "Outside the guard the property fails on the faithful model: six ..._refuted theorems (kernel-evaluated "
+        "witnesses) for the four listed findings; C07_four_styles_agree_fixed is the statement for the tree repaired "
+        "by fixes/C07-inner-hyphen-required.patch. Models are tied to the real code per case inside Coq: the four "
+        "real parsers' _actions/required_args against the model compilers (table cases) and the four real parsers' "
+        "answers (as_dict / rejection / dump) against the model run (run cases)."),
+    "level_note": (
+        "Proof, partial. Proved about the model for all inputs; that the model is the code is only exercised by the "
+        "correspondence run (seeded field lists x ~10 inputs each). The add_argument styles are declared from the "
+        "normal form of the field list under the documented signature rules (Optional without default -> None, "
+        "default None -> Optional[T], '_'-prefixed non-required names not offered): a field list the rules rewrite is "
+        "treated as a different declaration, not as a defect. Type conversion is modelled only for "
+        "int/str/bool/Optional/List and the YAML/JSON loaders enter as observed finite tables (theorems hold for any "
+        "loaders). Dump TEXT equality, exception classes and help output are compared on observations only; "
+        "instantiate_classes, group titles, positional/ActionYesNo/subclass-typed fields, nested groups below the "
+        "group and config FILE paths are outside the statement. Trusted: Coq kernel/VM, the runner "
+        "tie/impl/c07_styles.py and the Gallina printer, the hand-written models. No axioms."),
+    "technique": ("Rocq proof: compilers-to-table equalities by induction on the field list + a simulation proof "
+                  "(invariant carried through every parser stage) lifting table equivalence to all inputs; "
+                  "kernel-evaluated counter-witnesses; per-case correspondence of tables and runs judged inside Coq"),
 }
